@@ -165,7 +165,13 @@ fn scan_case(w: &mut W, sc: Sc, data: &[u8], place: Place) -> bool {
     w.st.count(&format!("calls:{}", sc.name()), 1);
     let eb = expected_bit(sc);
     if eb != 0 && bits & eb == 0 {
-        w.st.count(&format!("backend_bit_missing:{}", sc.name()), 1);
+        // which implementation the parser's own dispatch picks is not part of any statement:
+        // only the direct per-backend wrappers must enter the scanner they name
+        if matches!(sc, Sc::DispUri(_) | Sc::DispValue(_) | Sc::DispName) {
+            w.st.count(&format!("dispatch_used_other_implementation:{}", sc.name()), 1);
+        } else {
+            w.st.count(&format!("backend_bit_missing:{}", sc.name()), 1);
+        }
     }
     let want = scan::expected(sc.class(), buf);
     if w.st.samples.len() < 8 && w.st.evaluations % 100003 == 7 {
